@@ -292,4 +292,32 @@ def sideActs (k : LinkKey) (self other : ClsNames) : Bool := createsLink (k.of s
 def linkAfterCreate (ck : LinkKey) (x other : ClsNames) (present : Bool) : Bool := present || sideActs ck x other
 def linkAfterDrop (dk : LinkKey) (x other : ClsNames) (present : Bool) : Bool := present && !sideActs dk x other
 
+/-! ### `createTable` / `dropTable` with their `createJoinTables` / `dropJoinTables` flags
+
+`pass`: whether the if-(not-)exists flag is handed on to the join-table loop; `dedup`: whether a link table listed
+twice by the class (self-referential join declared in both directions) is handled once.  Both are read from the
+source (`Extracted.dropPassesIfExists`, …). -/
+
+def dedupNames : List Name → List Name
+  | [] => []
+  | a :: rest => if a ∈ rest then dedupNames rest else a :: dedupNames rest
+
+def linksOf (dedup : Bool) (links : List Name) : List Name :=
+  if dedup then (dedupNames links.reverse).reverse else links
+
+def dropTableG (pass dedup : Bool) (ifExists dropJoins : Bool) (r : Req) (c : Cat) : Except Unit Cat :=
+  if ifExists = true ∧ r.table ∉ c.tables then .ok c
+  else if r.table ∉ c.tables then .error ()
+  else if dropJoins then dropLinks (pass && ifExists) (linksOf dedup r.links) (dropTbl r.table c)
+  else .ok (dropTbl r.table c)
+
+def createTableG (pass dedup : Bool) (ifNotExists createJoins : Bool) (r : Req) (c : Cat) : Except Unit Cat :=
+  if ifNotExists = true ∧ r.table ∈ c.tables then .ok c
+  else if r.table ∈ c.tables then .error ()
+  else
+    match (if createJoins then createLinks (pass && ifNotExists) (linksOf dedup r.links) (addTbl r.table c)
+           else .ok (addTbl r.table c)) with
+    | .error e => .error e
+    | .ok c2 => createIdx r.table r.idx c2
+
 end SqlObjVerif.Ddl
